@@ -83,9 +83,9 @@ _p("C08", probes_quick=["bbox_geometry_c08", "bbox_iou_exact_c08"],
    assumptions=K,
    not_covered=["true-area exactness for rotated boxes; invariance under rigid motion; agreement of clipper and closed form; IoU in [0,1] and symmetric as numbers; too_far never rejects overlapping boxes"])
 _p("C09", probes_quick=["store_c09"],
-   level_text=PROOF_TEXT + "Decides that a merge future reports the merge result it received (failure is reported as failure) as a Verus postcondition in place; the map behaviour of the store is covered by the bounded replay probe only.",
-   level_note="Receiver::recv is assumed to return an uninterpreted next message; protocol assumption: only MergeResult messages arrive on a merge channel. NOT covered deductively: add_track/fetch_tracks/shard_stats/merge_owned (Arc<Vec<Mutex<HashMap>>> + worker threads) - bounded probe; lookup / find_usable.",
-   technique="Verus postcondition in place on the real crate (FutureMergeResponse::get) + bounded probe",
+   level_text=PROOF_TEXT + "Decides that a merge future reports the merge result it received (failure is reported as failure) as a Verus postcondition in place; that add_track / fetch_tracks / merge_owned are a faithful id->track map update (new id stored and nothing else changes, duplicate rejected with the store unchanged, exactly the listed stored ids removed and each returned once unchanged, failed owned merge leaves the store as it was) as Verus postconditions on the verbatim bodies for every store content, shard count and id; operation sequences through the worker threads are covered by the bounded replay probe only.",
+   level_note="Receiver::recv is assumed to return an uninterpreted next message; protocol assumption: only MergeResult messages arrive on a merge channel. Extract units store_map_c09 (add_track, fetch_tracks; shim: a shard guard is an exclusive reference to shard id % num_shards, no other thread between two guards of one call), store_merge_owned, store_sharding_c09, track_builder_c09. NOT covered deductively: add / shard_stats / lookup / find_usable / merge_external (worker threads) - bounded probe.",
+   technique="Verus postconditions + loop invariant on verbatim extracts (add_track, fetch_tracks, merge_owned, get_store, builders) and in place (FutureMergeResponse::get); bounded probe for operation sequences",
    assumptions=V,
    not_covered=["store map laws over operation sequences (bounded probe only)", "lookup / find_usable / merge execution in worker threads"])
 _p("C11", probes_quick=["store_c09"], probes_thorough=["track_c11"],
